@@ -37,3 +37,18 @@ package dataflow
 //@   ensures callgraph_edges: old(instr.Common().StaticCallee()) == nil && !useContracts && s.PointerAnalysis != nil && has(s.PointerAnalysis.CallGraph.Nodes, instr.Parent()) && 0 <= ek && ek < len(CGN().Out) && CGN().Out[ek].Site == instr ==> has(result0, CGN().Out[ek].Callee.Func) && result0[CGN().Out[ek].Callee.Func].Callee == CGN().Out[ek].Callee.Func
 //@   loop callEdge invariant seen: 0 <= ek && ek < iter(callEdge) && CGN().Out[ek].Site == instr ==> has(callees, CGN().Out[ek].Callee.Func) && callees[CGN().Out[ek].Callee.Func].Callee == CGN().Out[ek].Callee.Func
 //@   ensures static_callee: old(instr.Common().StaticCallee()) != nil ==> result1 == nil && has(result0, old(instr.Common().StaticCallee())) && result0[old(instr.Common().StaticCallee())].Callee == old(instr.Common().StaticCallee()) && result0[old(instr.Common().StaticCallee())].Type == Static
+
+// C10: a call resolved to a function with a user-provided specification loads THAT
+// summary (function contracts are keyed by the callee's full name); only calls
+// resolved through an interface contract look the interface method up first.
+//@ func InterfaceMethodKey
+//@   property C10
+//@   ensures is_invoke: result0 ==> callsite != nil && callsite.Common().IsInvoke()
+//@   modifies nothing
+
+//@ func AnalyzerState.LoadExternalContractSummary
+//@   property C10
+//@   requires s != nil
+//@   ensures function_contract: node != nil && node.callee.Callee != nil && node.callee.Type != InterfaceContract && old(has(s.DataFlowContracts, node.callee.Callee.String())) ==> result == old(s.DataFlowContracts[node.callee.Callee.String()])
+//@   ensures no_contract: node != nil && node.callee.Callee != nil && node.callee.Type != InterfaceContract && !old(has(s.DataFlowContracts, node.callee.Callee.String())) ==> result == nil
+//@   ensures nil_node: node == nil ==> result == nil
